@@ -109,6 +109,10 @@ def check_tree(U, d, share, rec: Rec, light=False, route="direct"):
         try:
             for info in gen:
                 got.append(ikey(info))
+                if len(got) > 4 * len(pkey) + 16:   # a finite tree has finitely many positions: do not wait for the end
+                    rec.violation(f"C05|{fn}|sequence", dict(case, prune=len(pr)), f"{fn}: more than {len(got) - 1} positions yielded from a tree of {len(pkey)} positions (the traversal does not end)")
+                    getattr(gen, "close", lambda: None)()
+                    return
                 try:
                     v = getattr(info.parent, info.field.name)
                     at = v[info.findex] if info.findex is not None else v
